@@ -90,7 +90,17 @@ Vec(e)     == [c |-> "vec", e |-> e]
 Map(k, v)  == [c |-> "map", key |-> k, val |-> v]
 Tuple(es)  == [c |-> "tuple", es |-> es]
 Named(n)   == [c |-> "named", n |-> n]
-Quant(e)   == [c |-> "quant", e |-> e]      \* swimos Quantity<T>: a T or the text `infinite`
+Quant(e)   == [c |-> "quant", e |-> e]
+\* WIDE collections: exactly one instance, with n entries k -> k / n elements (MessagePack size classes: a map / array
+\* header is fixmap / fixarray up to 15 entries, map16 / array16 up to 65535, map32 / array32 beyond)
+WMap(n)    == [c |-> "map", key |-> Prim("i32"), val |-> Prim("i32"), wide |-> n]
+WVec(n)    == [c |-> "vec", e |-> Prim("i32"), wide |-> n]
+IsWide(t)  == "wide" \in DOMAIN t
+SizeClass(n) == IF n <= 15 THEN "fix" ELSE IF n <= 65535 THEN "16" ELSE "32"
+\* the MessagePack marker class the writer must choose for the body of an attribute-less record
+BodyMarker(v) == IF v.k = "rec" /\ v.attrs = <<>> /\ v.items # <<>>
+                 THEN (IF \A i \in 1..Len(v.items) : v.items[i].slot THEN "map" ELSE "array") \o SizeClass(Len(v.items))
+                 ELSE ""      \* swimos Quantity<T>: a T or the text `infinite`
 
 \* instances (section 3), needed here for the default values of fields
 NoneI        == [k |-> "none"]
@@ -172,6 +182,15 @@ TypeOf(key) ==
                     FD("max_backoff", "max_backoff", "slot", Quant(Named("Duration")), FinI(StructI(0, <<Const("300"), Zero>>)))>>),
           Variant("None", "none", "unit", <<>>) >>)
     [] key = "Value"    -> Plain(VAL)
+    [] key = "WMap15"   -> Plain(WMap(15))
+    [] key = "WMap16"   -> Plain(WMap(16))
+    [] key = "WMap17"   -> Plain(WMap(17))
+    [] key = "WMap300"  -> Plain(WMap(300))
+    [] key = "WVec15"   -> Plain(WVec(15))
+    [] key = "WVec16"   -> Plain(WVec(16))
+    [] key = "WVec300"  -> Plain(WVec(300))
+    [] key = "WStr"     -> Plain(Prim("wstr"))
+    [] key = "WBlob"    -> Plain(Prim("wblob"))
     [] key = "AttrTup"  -> Struct("AttrTup", "named", <<F("a", "a", "attr", Tuple(<<I32, STR>>)), F("x", "x", "slot", I32)>>)
     [] key = "HBodyTup" -> Struct("HBodyTup", "named", <<F("hb", "hb", "hbody", Tuple(<<I32, STR>>)), F("x", "x", "slot", I32)>>)
     [] key = "Unit"     -> Struct("Unit", "unit", <<>>)
@@ -274,7 +293,8 @@ AllKeys == {"Unit", "Simple", "Two", "Tup", "Renamed", "TupRen", "WithAttr", "Tw
             "AttrVec", "AttrMap", "HdrBoth", "HdrVec", "HdrNest", "BodyVec", "BodyStr", "BodyNest", "Skippy", "SkipTup", "Opt", "Coll",
             "GenI", "GenS", "GenTwo", "GenOptTwo", "Nested", "VecNest", "NewT", "NewS", "TagField", "Shape",
             "OpSI", "OpITwo", "ConvStruct", "ConvEnum", "Nums", "ModelVal", "WithValue", "BodyValue", "HdrValue",
-            "i32", "u64", "f64", "bool", "String", "VecI", "OptI", "MapSI", "PairIS", "OptTwo", "VecTwo", "VecOptI", "Duration", "RetryStrategy", "Value", "AttrTup", "HBodyTup"} \cup ReuseKeys \cup PosKeys \cup ComboKeys
+            "i32", "u64", "f64", "bool", "String", "VecI", "OptI", "MapSI", "PairIS", "OptTwo", "VecTwo", "VecOptI", "Duration", "RetryStrategy", "Value", "AttrTup", "HBodyTup",
+            "WMap15", "WMap16", "WMap17", "WMap300", "WVec15", "WVec16", "WVec300", "WStr", "WBlob"} \cup ReuseKeys \cup PosKeys \cup ComboKeys
 
 
 LevelNames == {"Info", "Warn"}
@@ -314,6 +334,10 @@ PrimDom(p, d) ==
       \* the position battery: one symbol per boundary class of the kind (the pools hold the kind limits and the
       \* values that force each MessagePack width)
       \* the combination battery: one value per field (two with Scope > 0), the structure is what varies
+      [] p = "i32k"   -> {Sym("i", "0")}
+      \* strings / blobs of the length named by the symbol (str8 / str16 / str32, bin8 / bin16 / bin32 boundaries)
+      [] p = "wstr"   -> {Leaf("S", "300"), Leaf("S", "70000")}
+      [] p = "wblob"  -> {Leaf("D", "300"), Leaf("D", "70000")}
       [] p = "i32c"   -> IF Scope > 0 THEN {Sym("i", "0"), Sym("n", "0")} ELSE {Sym("i", "0")}
       [] p = "boolc"  -> IF Scope > 0 THEN {Sym("b", "0"), Sym("b", "1")} ELSE {Sym("b", "0")}
       [] p = "stringc" -> {Sym("s", "0")}
@@ -348,6 +372,8 @@ Inst(t, d) ==
     CASE t.c = "prim"  -> PrimDom(t.p, d)
       [] t.c = "opt"   -> {NoneI} \cup {SomeI(x) : x \in Inst(t.e, d + 1)}
       [] t.c = "quant" -> {InfI} \cup {FinI(x) : x \in Inst(t.e, d + 1)}
+      [] t.c = "vec" /\ IsWide(t) -> {VecI([k \in 1..t.wide |-> Const(ToString(k))])}
+      [] t.c = "map" /\ IsWide(t) -> {MapI([k \in 1..t.wide |-> <<Const(ToString(k)), Const(ToString(k))>>])}
       [] t.c = "vec"   -> LET E == Inst(t.e, d + 1) IN
                           {VecI(<<>>)} \cup {VecI(<<x>>) : x \in E}
                           \cup (IF d = 0 THEN {VecI(<<x, y>>) : x \in E, y \in E} ELSE {})
@@ -473,24 +499,26 @@ Ok(x) == [ok |-> TRUE, x |-> x]
 
 IntClasses == {"i", "n", "g", "h", "G", "N", "B", "M", "T", "U", "z", "Z", "q", "c", "L"}
 ReadPrim(p, v) ==
-    LET acc == CASE p \in {"i32", "i32w", "i32c"} -> {"i", "n", "z", "q", "Z", "c"}
+    LET acc == CASE p \in {"i32", "i32w", "i32c", "i32k"} -> {"i", "n", "z", "q", "Z", "c"}
                  [] p \in {"i64", "i64w"} -> {"i", "n", "g", "h", "N", "T", "U", "z", "q", "Z", "c", "L"}
                  [] p \in {"u32", "u32w"} -> {"i", "h", "z", "q", "Z", "c"}
                  [] p \in {"u64", "u64w", "usize", "secs"} -> {"i", "g", "h", "G", "T", "z", "q", "Z", "c", "L"}
                  [] p \in {"f64", "f64w"} -> {"f"} \cup IntClasses
                  [] p \in {"bool", "boolc"} -> {"b"}
-                 [] p \in {"string", "stringw", "stringc", "text"} -> {"s", "t", "r"}
+                 [] p \in {"string", "stringw", "stringc", "text"} -> {"s", "t", "r", "S"}
                  [] p = "nzusize" -> {"i", "q", "g", "h", "G", "L", "c"}
                  [] p = "uri"    -> {"r", "s", "t"}
                  [] p = "bigint" -> IntClasses
                  [] p = "biguint" -> {"i", "g", "h", "G", "B", "T", "z", "q", "Z", "c", "L"}
-                 [] p = "blob"   -> {"d"}
+                 [] p = "blob"   -> {"d", "D"}
+                 [] p = "wblob"  -> {"d", "D"}
+                 [] p = "wstr"   -> {"s", "t", "r", "S"}
                  [] p = "unit"   -> {"x"}
                  \* (any micro-second count within chrono's range: not i64::MAX / MIN, not beyond i64)
                  [] p = "timestamp" -> {"T", "U", "i", "n", "g", "h", "z", "q", "Z", "c"}
                  [] p = "nanos"  -> {"z", "i", "h", "q", "Z", "c"}
                  [] p = "level"  -> {"t"}
-                 [] p = "value"  -> {"x", "f", "b", "s", "t", "r", "d", "rec"} \cup IntClasses
+                 [] p = "value"  -> {"x", "f", "b", "s", "t", "r", "d", "S", "D", "rec"} \cup IntClasses
     IN  IF v.k \in acc /\ (p = "level" => v.s \in LevelNames) THEN Ok(v) ELSE Fail
 
 \* simple = a single event (RecognizerReadable::is_simple)
